@@ -7,16 +7,15 @@
 (* Keys are integers as in KeyTreeDefs.  Initial keys are multiples of 8 so *)
 (* that a few keys can be inserted between any two neighbours; the harness  *)
 (* concretises them order-isomorphically as names and integers.             *)
-EXTENDS KeyTreeDefs
+EXTENDS KeyTreeDefs, SequencesExt
 CONSTANTS Sizes,      \* sizes of the initial map
           MaxSteps,   \* edits per behaviour
           Sel         \* selectors used by the edits, e.g. {"lo", "mid", "hi"}
 
 Null == -1            \* t.Data[k] for a key that is not in the map: the nil object
 
-RECURSIVE SortSet(_)
-SortSet(S) == IF S = {} THEN <<>>
-              ELSE LET mn == CHOOSE x \in S : \A y \in S : x <= y IN <<mn>> \o SortSet(S \ {mn})
+\* the elements of a finite set of integers in ascending order
+SortSet(S) == SortSeq(SetToSeq(S), LAMBDA a, b : a < b)
 RefAll(d) == LET ks == SortSet(DOMAIN d) IN [i \in 1..Len(ks) |-> <<ks[i], d[ks[i]]>>]
 
 InitMap(n) == [k \in {8 * i : i \in 1..n} |-> k \div 8]
